@@ -57,6 +57,9 @@ DoGenerate ==
         /\ Generate(wall, i)
         /\ hist' = Append(hist, [op |-> "generate", id |-> lastGen'.id, ts |-> lastGen'.ts,
                                  err |-> lastGen'.err, overflow |-> (lastGen'.ts > TopT)] @@ After)
+DoReload ==
+    /\ Reload
+    /\ hist' = Append(hist, [op |-> "reload"] @@ After)
 Tick ==
     /\ ClockMoves /\ mode = "now"
     /\ wall' \in Walls \ {wall}
@@ -70,8 +73,9 @@ CallRemove == Bounded /\ DoRemove
 CallExtend == Bounded /\ DoExtend
 CallFromSecrets == Bounded /\ DoFromSecrets
 CallGenerate == Bounded /\ DoGenerate
+CallReload == Bounded /\ DoReload
 
-MCNext == CallInsert \/ CallRemove \/ CallExtend \/ CallFromSecrets \/ CallGenerate \/ Tick
+MCNext == CallInsert \/ CallRemove \/ CallExtend \/ CallFromSecrets \/ CallGenerate \/ CallReload \/ Tick
 MCSpec == MCInit /\ [][MCNext]_mcvars
 
 NoHistView == <<bundle, latest, gens, lastGen, used, added, pure, mode, wall, steps>>
